@@ -350,6 +350,31 @@ func c18exec(seq []tcall, impl c18impl, seqNo int, res *core.CaseResult, verbose
 		}
 	}
 	if !committed {
+		if !aborted {
+			return // the transaction is still open: the store is legitimately held
+		}
+		// ended by an Abort alone (explicit, or from inside a handler) and never committed: the store must be free again
+		var p string
+		var ferr error
+		hung, confirmed := withWatchdog(func() {
+			p = core.Recover(func() {
+				t2, err := open(keyvalue.TransactionOptions{Mode: keyvalue.TransactionReadOnly})
+				if err != nil {
+					ferr = err
+					return
+				}
+				t2.Get("x")
+				_, ferr = t2.Commit(context.Background())
+			})
+		})
+		switch {
+		case hung && confirmed:
+			viol("store-usable", "hang", "usable", "after a transaction that was ended by Abort alone a fresh transaction could not be opened: goroutine dump shows it parked on the store lock")
+		case hung:
+			res.Inconclusive = "fresh transaction did not return, no blocked-state witness"
+		case p != "" || ferr != nil:
+			viol("store-usable", "error", "usable", fmt.Sprintf("after a transaction that was ended by Abort alone a fresh transaction failed: %v %s", ferr, p))
+		}
 		return
 	}
 	if verbose {
@@ -465,6 +490,16 @@ func c18run(env *core.Env, idx int) core.CaseResult {
 		}
 		for _, impl := range c18impls() {
 			c18exec(s, impl, idx*c18Block+i, &res, env.Verbose)
+			if ab && len(s) > 1 && s[len(s)-1].Op == "Commit" {
+				// the same sequence without the final Commit: a transaction ended by Abort alone must free the store too
+				c18exec(s[:len(s)-1], impl, idx*c18Block+i, &res, env.Verbose)
+				res.Count("abort_only_sequences", 1)
+			}
+		}
+		for _, v := range res.Violations {
+			if strings.Contains(v.Sig, "got=hang") {
+				return res // every further sequence of this block would wait for the watchdog again
+			}
 		}
 	}
 	res.Count("sequences", len(seqs))
